@@ -365,7 +365,7 @@ func WithDialerUnsafe(dialer DialerFunc) Option {
 // configuration options such as supported protocol versions and custom dialers.
 type Client struct {
 	lock              *sync.Mutex
-	conn              *conn
+	conn              atomic.Pointer[conn] // written by reconnect under lock, read by Close without it
 	version           *kmip.ProtocolVersion
 	supportedVersions []kmip.ProtocolVersion
 	dialer            DialerFunc
@@ -428,13 +428,13 @@ func DialContext(ctx context.Context, addr string, options ...Option) (*Client, 
 
 	c := &Client{
 		lock:              new(sync.Mutex),
-		conn:              newConn(stream),
 		dialer:            dialer,
 		supportedVersions: opts.supportedVersions,
 		version:           opts.enforceVersion,
 		middlewares:       opts.middlewares,
 		addr:              addr,
 	}
+	c.conn.Store(newConn(stream))
 
 	// Negotiate protocol version
 	if err := c.negotiateVersion(ctx); err != nil {
@@ -462,15 +462,16 @@ func (c *Client) CloneCtx(ctx context.Context) (*Client, error) {
 		return nil, err
 	}
 	version := *c.version
-	return &Client{
+	clone := &Client{
 		lock:              new(sync.Mutex),
 		version:           &version,
 		supportedVersions: slices.Clone(c.supportedVersions),
 		dialer:            c.dialer,
 		middlewares:       slices.Clone(c.middlewares),
-		conn:              newConn(stream),
 		addr:              c.addr,
-	}, nil
+	}
+	clone.conn.Store(newConn(stream))
+	return clone, nil
 }
 
 // Version returns the KMIP protocol version used by the client.
@@ -487,7 +488,7 @@ func (c *Client) Addr() string {
 // It returns an error if the connection could not be closed.
 func (c *Client) Close() error {
 	c.closed.Store(true)
-	if conn := c.conn; conn != nil {
+	if conn := c.conn.Load(); conn != nil {
 		return conn.Close()
 	}
 	// No connection to close: the last reconnection attempt failed.
@@ -496,18 +497,19 @@ func (c *Client) Close() error {
 
 func (c *Client) reconnect(ctx context.Context) error {
 	// fmt.Println("Reconnecting")
-	if c.conn != nil {
-		_ = c.conn.Close()
-		c.conn = nil
+	if old := c.conn.Load(); old != nil {
+		_ = old.Close()
+		c.conn.Store(nil)
 	}
 	stream, err := c.dialer(ctx)
 	if err != nil {
 		return err
 	}
-	c.conn = newConn(stream)
+	conn := newConn(stream)
+	c.conn.Store(conn)
 	if c.closed.Load() {
 		// Close() ran while this connection was being established and may not have seen it.
-		_ = c.conn.Close()
+		_ = conn.Close()
 		return net.ErrClosed
 	}
 	return nil
@@ -526,7 +528,7 @@ func (c *Client) doRountrip(ctx context.Context, msg *kmip.RequestMessage) (*kmi
 	}
 	// Never reuse a connection that has been terminated (I/O error, reset, abandoned call):
 	// every later call would fail with the same error.
-	if c.conn == nil || c.conn.ctx.Err() != nil {
+	if conn := c.conn.Load(); conn == nil || conn.ctx.Err() != nil {
 		if err := c.reconnect(ctx); err != nil {
 			return nil, err
 		}
@@ -535,7 +537,7 @@ func (c *Client) doRountrip(ctx context.Context, msg *kmip.RequestMessage) (*kmi
 	//TODO: Better reconnection loop. Do we really need a retry counter here ?
 	retry := 3
 	for {
-		resp, err := c.conn.roundtrip(ctx, msg)
+		resp, err := c.conn.Load().roundtrip(ctx, msg)
 		if err == nil {
 			return resp, nil
 		}
